@@ -3750,11 +3750,27 @@ class BaseParser:
     #
     # Subproc atom rules
     #
+    def _append_subproc_bang_node(self, p, node):
+        """Adds the macro argument to the arguments of the last command."""
+        cliargs = p[2][-1]
+        if isinstance(cliargs, ast.List):
+            cliargs.elts.append(node)
+            return
+        # After an argument that extends the list (``@()``, a glob, ``a@(x)b``)
+        # the expression is ``[...] + ...``, not a list literal: add one more
+        # summand.
+        lineno, col = node.lineno, node.col_offset
+        last = ast.List(elts=[node], ctx=ast.Load(), lineno=lineno, col_offset=col)
+        new = binop(cliargs, ast.Add(), last, lineno=lineno, col=col)
+        if hasattr(cliargs, "_xenvvars"):
+            new._xenvvars = cliargs._xenvvars
+        p[2][-1] = new
+
     def _append_subproc_bang_empty(self, p):
         """Appends an empty string in subprocess mode to the argument list."""
         p3 = p[3]
         node = ast.const_str(s="", lineno=p3.lineno, col_offset=p3.lexpos + 1)
-        p[2][-1].elts.append(node)
+        self._append_subproc_bang_node(p, node)
 
     def _append_subproc_bang(self, p):
         """Appends the part between ! and the ) or ] in subprocess mode to the
@@ -3765,7 +3781,7 @@ class BaseParser:
         end = (p5.lineno, p5.lexpos)
         s = self._source_slice(beg, end).strip()
         node = ast.const_str(s=s, lineno=beg[0], col_offset=beg[1])
-        p[2][-1].elts.append(node)
+        self._append_subproc_bang_node(p, node)
 
     def p_subproc_atom_uncaptured(self, p):
         """subproc_atom : dollar_lbracket_tok subproc RBRACKET"""
